@@ -756,6 +756,11 @@ def check_C11(tier, seed):
                 ops.append(mk("set", t=1, f=f, v=r.choice(by_field[f])))
             ops += [mk("update", t=2, snap=bases["edge"]), mk("remove", t=1), mk("create", snap=dict(bases["min"], relative_path=["again/t3.wav"])),
                     mk("update", t=3, snap=dict(bases["full"], relative_path=["again/t3.mp3"])), mk("remove", t=2)]
+            # calls through the handles of the two removed tracks (nominal values of every setter, a whole-snapshot write): whatever they
+            # answer, the stored database must stay well-formed (TProbe: RawSane - no row that names no stored track)
+            for f in sorted(by_field):
+                ops.append(mk("set", t=1 + (len(ops) % 2), f=f, v=r.choice(by_field[f]), probe=True))
+            ops += [mk("update", t=2, snap=bases["full"], probe=True), mk("update", t=1, snap=bases["min"], probe=True)]
             scripts.append(ops)
         ws = []
         for s in (vlib.quick_schemas(seed, 2) if tier == "quick" else vlib.ALL):
